@@ -142,7 +142,7 @@ func dtConstructions(fn *ssa.Function) []dtConstruct {
 
 // time producers allowed in package system (everything else is a violation)
 func allowedTimeOrigin(v ssa.Value, depth int) (bool, string) {
-	if depth > 8 {
+	if depth > 16 {
 		return false, "derivation too deep"
 	}
 	switch x := v.(type) {
